@@ -36,7 +36,7 @@ PROPS["C13"] = dict(engines=["arate", "abuffer"], design="5/C13",
          "Spacing, Order, NoLoss, NoNeedlessDelay, OnTime for all arrival patterns of 4 elements; real runs on the virtual clock are validated "
          "against it with exact integer timestamps. delay() is covered by AsyncBuffer (order, count).",
     note="Trusted: TLC; virtual clock (time only advances while the loop is idle = timers fire on time); integer intervals.")
-PROPS["C02"] = dict(engines=["abuffer", "arate", "atwindow", "apartition", "aemit", "amapasync", "azip"], design="5/C02",
+PROPS["C02"] = dict(engines=["abuffer", "arate", "atwindow", "apartition", "aemit", "amapasync", "azip", "acomposite"], design="5/C02",
     technique="TLA+ specs of the asynchronous nodes (AsyncBuffer, AsyncRateLimit, ...) checked by TLC for all interleavings + trace validation of the real nodes under enumerated schedules",
     text="Per node module TLC checks Lossless/Conservation/Order (exactly once, arrival order, complete at quiescence) over all interleavings "
          "of producers, forwarding coroutine and consumer (Future, native coroutine, synchronous); every recorded schedule of the real node "
@@ -47,12 +47,12 @@ PROPS["C03"] = dict(engines=["abuffer", "arate", "atwindow", "apartition", "aemi
     text="AsyncBuffer.tla models tornado's bounded Queue (parked putters); TLC checks Bound, ParkedNotDone, NoStuckEmit and the liveness "
          "property EmitsComplete under weak fairness; emit_done events of real runs are validated against the model.",
     note="Trusted: TLC; virtual-time loop; same-loop operation.")
-PROPS["C04"] = dict(engines=["sync", "abuffer", "alatest", "arate", "atwindow", "apartition", "aemit", "amapasync"], design="5/C04",
+PROPS["C04"] = dict(engines=["sync", "abuffer", "alatest", "arate", "atwindow", "apartition", "aemit", "amapasync", "acomposite"], design="5/C04",
     technique="TLA+ specs carrying reference counts with the data (CbSafe invariant) checked by TLC + trace validation of instrumented RefCounters",
     text="Every module carries rc/fired next to the data; CbSafe (callback scheduled => element not stored, sleeping, or at an unfinished consumer) "
          "is checked by TLC on the design and evaluated on every recorded trace of the real nodes; known deviations are listed in known_findings.json.",
     note="Trusted: TLC; RefCounter subclass whose loop is the event log (the real retain/release code runs).")
-PROPS["C05"] = dict(engines=["sync", "abuffer", "alatest", "arate", "atwindow", "apartition", "aemit", "amapasync"], design="5/C05",
+PROPS["C05"] = dict(engines=["sync", "abuffer", "alatest", "arate", "atwindow", "apartition", "aemit", "amapasync", "acomposite"], design="5/C05",
     technique="TLA+ specs with holder-based balance invariants (RcBalanced/RcBalance/CbExact/NoResurrection) checked by TLC + trace validation of counter values",
     text="Counts are compared with the holder multiset derived from the list-level contracts (SyncFlow) or from the stored data (async modules) in every "
          "state; the counter values of real runs are logged after every operation and compared with the specification's.",
